@@ -388,106 +388,93 @@ func ruleAmbientInputs(c *Ctx, r *Report, rule string) {
 // lexer goroutine ends right after emitting it). An earlier exit leaves the
 // lexer blocked on its token channel and the reader on its input channel.
 func ruleParserDrains(c *Ctx, r *Report, rule string) {
-	r.rule(rule, 2, "every way out of parse()'s toplevel loop — the loop condition turning false, a break, a return — is taken only when matchEnd() has just returned true (the finaliser token tEOF/tFAIL was consumed); no return precedes the loop; matchEnd is checkEnd (current.typ <= tEOF) followed by advance")
+	r.rule(rule, 2, "on every interpreted path of parse() (the functions it is split into read through) the last thing the end-of-input test matchEnd() said before parse returns is 'true' — the finaliser token tEOF/tFAIL was consumed — and it was asked at least once; matchEnd is checkEnd (current.typ <= tEOF) followed by advance")
 	_, fd := c.find("parse")
 	if fd == nil {
 		r.bad(rule, "parse", "function not found", "")
 		return
 	}
-	isMatchEnd := func(a condAtom) bool {
-		call, ok := a.E.(*ast.CallExpr)
-		return ok && c.calleeName(call) == "parser.matchEnd"
-	}
-	var loop *ast.ForStmt
-	loopAt := -1
-	for i, s := range fd.Body.List {
-		if fs, ok := s.(*ast.ForStmt); ok {
-			mentions := false
-			ast.Inspect(fs, func(n ast.Node) bool {
-				if call, ok := n.(*ast.CallExpr); ok && c.calleeName(call) == "parser.matchEnd" {
-					mentions = true
-				}
-				return true
-			})
-			if mentions && loop == nil {
-				loop, loopAt = fs, i
-			}
-		}
-	}
-	if loop == nil {
-		r.bad(rule, "parse/loop", "parse has no toplevel loop that tests matchEnd()", c.pos(fd.Pos()))
-		return
-	}
-	// no return before the loop
-	early := ""
-	for _, s := range fd.Body.List[:loopAt] {
-		ast.Inspect(s, func(n ast.Node) bool {
-			if _, isLit := n.(*ast.FuncLit); isLit {
-				return false
-			}
-			if rs, ok := n.(*ast.ReturnStmt); ok {
-				early = c.pos(rs.Pos())
-			}
-			return true
-		})
-	}
-	r.check(early == "", rule, "parse/no-early-return", "no return before the token loop", "parse returns before the token loop at "+early+": the lexer goroutine is left running", early)
-	// the loop condition
-	if loop.Cond != nil {
-		known := c.nnf(loop.Cond, false, nil).knownAtoms()
-		ok := false
-		for _, a := range known {
-			if isMatchEnd(a) && a.Pos {
-				ok = true
-			}
-		}
-		r.check(ok, rule, "parse/loop-exit", "the loop ends only when matchEnd() is true", fmt.Sprintf("the toplevel loop can end on %s without matchEnd() being true: tokens are left unconsumed and the lexer goroutine blocks forever", types.ExprString(loop.Cond)), c.pos(loop.Pos()))
-	}
-	// other exits inside the loop
-	pm := parentMap(fd.Body)
-	n := 0
-	ast.Inspect(loop.Body, func(x ast.Node) bool {
-		if _, isLit := x.(*ast.FuncLit); isLit {
+	meObj, _ := c.find("parser.matchEnd")
+	// the functions through which parse reaches matchEnd are interpreted in place
+	reaches := map[types.Object]bool{}
+	var visit func(d *ast.FuncDecl, depth int) bool
+	seen := map[*ast.FuncDecl]bool{}
+	visit = func(d *ast.FuncDecl, depth int) bool {
+		if d == nil || d.Body == nil || depth > 4 || seen[d] {
 			return false
 		}
-		leaves := false
-		what := ""
-		switch s := x.(type) {
-		case *ast.ReturnStmt:
-			leaves, what = true, "return"
-		case *ast.BranchStmt:
-			switch s.Tok {
-			case token.GOTO:
-				leaves, what = true, "goto"
-			case token.BREAK:
-				// a break leaves this loop unless it belongs to an inner for/switch/select
-				target := ast.Node(nil)
-				for p := pm[ast.Node(s)]; p != nil; p = pm[p] {
-					switch p.(type) {
-					case *ast.ForStmt, *ast.RangeStmt, *ast.SwitchStmt, *ast.TypeSwitchStmt, *ast.SelectStmt:
-						if target == nil {
-							target = p
-						}
-					}
-				}
-				if s.Label != nil || target == ast.Node(loop) {
-					leaves, what = true, "break"
-				}
+		seen[d] = true
+		found := false
+		walkCalls(d.Body, false, func(call *ast.CallExpr) {
+			fn, ok := c.callee(call).(*types.Func)
+			if !ok {
+				return
 			}
-		}
-		if !leaves {
+			if meObj != nil && types.Object(fn) == types.Object(meObj) {
+				found = true
+				return
+			}
+			if fn.Pkg() != nil && fn.Pkg().Path() == bclPath && visit(c.funcDecls[fn], depth+1) {
+				reaches[fn] = true
+				found = true
+			}
+		})
+		return found
+	}
+	visit(fd, 0)
+	var h Hooks
+	h.Inline = func(fn *types.Func) bool {
+		if reaches[fn] {
 			return true
 		}
-		n++
-		ok := false
-		for _, f := range splitFacts(c.factsAt(fd.Body, x)) {
-			if isMatchEnd(condAtom{E: stripParens(f.Cond), Pos: f.Pos}) && f.Pos {
-				ok = true
-			}
+		// the step that picks parse's error result
+		if fn.Pkg() != nil && fn.Pkg().Path() == bclPath {
+			res := fn.Type().(*types.Signature).Results()
+			return res.Len() == 1 && isErrorType(res.At(0).Type())
 		}
-		r.check(ok, rule, fmt.Sprintf("parse/loop-%s#%d", what, n), "taken only after matchEnd() returned true", fmt.Sprintf("parse leaves its token loop by %s without matchEnd() having returned true: the rest of the tokens is never consumed, so the lexer goroutine (and with it the reader) stays blocked after the call returned", what), c.pos(x.Pos()))
-		return true
-	})
+		return false
+	}
+	h.Call = func(in *Interp, st *State, call *ast.CallExpr, callee types.Object, args []Value) ([]valState, bool) {
+		if meObj != nil && callee == types.Object(meObj) {
+			p := st.P.(*strsPay)
+			p.items = append(p.items, "asked")
+			return one(st, tagV("matchEnd", len(p.items))), true
+		}
+		return nil, false
+	}
+	h.Decision = func(in *Interp, st *State, cond ast.Expr, v Value, branch bool) {
+		if v.K == vTag && v.Tag == "matchEnd" {
+			p := st.P.(*strsPay)
+			p.items = append(p.items, fmt.Sprintf("%v", branch))
+		}
+	}
+	in := newInterp(c, h)
+	st := &State{Env: map[types.Object]Value{}, P: &strsPay{}}
+	var args []Value
+	for _, f := range fd.Type.Params.List {
+		for range f.Names {
+			args = append(args, unknownV())
+		}
+	}
+	res := in.inlineBody(st, fd.Type, fd.Body, fd.Recv, args)
+	var bad []string
+	for _, vs := range res {
+		items := vs.st.P.(*strsPay).items
+		last := ""
+		if len(items) > 0 {
+			last = items[len(items)-1]
+		}
+		if last != "true" {
+			bad = append(bad, fmt.Sprintf("a path returns with the end-of-input test history %v", items))
+		}
+	}
+	for _, u := range in.Undecided {
+		if strings.Contains(u, "loop body changes the tracked state") {
+			continue
+		}
+		r.undecided(rule, "parse/model", u, c.pos(fd.Pos()))
+	}
+	r.check(len(bad) == 0 && len(res) > 0, rule, "parse/drains", fmt.Sprintf("%d paths, each returning right after matchEnd() said true", len(res)), "parse can return without matchEnd() having just returned true: the rest of the tokens is never consumed, so the lexer goroutine (and with it the reader) stays blocked after the call returned: "+strings.Join(dedupe(bad), "; "), c.pos(fd.Pos()))
 	// matchEnd itself: checkEnd then advance
 	if _, me := c.find("parser.matchEnd"); me != nil {
 		calls := []string{}
